@@ -739,7 +739,12 @@ def run(ctx):
                     "code string = four-hex-digit words each followed by a space; half words padded with 80",
                     "timecode frames non-negative and non-decreasing under the spacing hypothesis",
                     "load displayed within (start - 3 frames, start - 2 frames] (model of PASS 2/3)",
-                    "spec decoder of the emitted body returns the laid-out rows (basic-set texts)"],
+                    "spec decoder of the emitted body returns the laid-out rows (basic-set texts)",
+                    "wave 7: builder sccr's reader model on the writer's own layout, all texts: one load line closes the "
+                    "caption on display and queues a buffer with exactly the words of the rows (C17_reader_on_load_line); "
+                    "on the whole document the decoder never raises and its caption store holds one caption per cue with the "
+                    "same words and a start within three frames (C17_reread_store_partial); whenever the reader model returns "
+                    "captions they satisfy ok_reread (C17_reread_conditional_partial)"],
         "correspondence_only": ["textwrap.wrap itself (stream A validates the Coq model of it)",
                                 "binary64 arithmetic of PASS 2 and _format_timestamp (exact model; exact-boundary "
                                 "inputs counted as near_threshold)",
@@ -748,7 +753,9 @@ def run(ctx):
                                 "re-reading through the real SCCReader: one caption per cue, same words, start time; the same "
                                 "statement for the writer model composed with builder sccr's full reader model is evaluated "
                                 "on every case (request 1705) and compared with the real pair; complete-table theorems for "
-                                "every basic character through both models",
+                                "every basic character through both models; wave 7: proved for all in-domain lists up to the "
+                                "two final refusals of SCCReader.read (line-length scan, flash check), whose absence is "
+                                "evaluated on every case (request 1706)",
                                 "document assembly of write() (header, line layout)"]}
     res["trusted_extra"] = ["Python's textwrap (modelled by coq/model/SccWrap.v for break_on_hyphens=False, no TABs; "
                             "validated by stream A on every run)",
